@@ -19,6 +19,7 @@ RULE = ("per named curve: encodings (raw/uncompressed/compressed/hybrid) of poin
         "curves (h = 1 and h = 4): every 2-byte string and every (prefix, x, y) in a grid. A case is distinct by its "
         "operation line; non-trivial = the input reaches the point decoder (has one of the three accepted lengths) or "
         "the DER wrapper parser")
+LEANCHECK = ["Props.C08"]
 ASSUMPTIONS = [
     "p prime, n prime for the curves of the table, and #E(F_p) = n for the 16 cofactor-1 curves (SEC 2 / FIPS / RFC 5639 "
     "facts): hypotheses of from_string_accepts_iff_subgroup_cofactor_one (full statement, in Mathlib's point group); the "
@@ -101,7 +102,7 @@ def der_stream(ctx, ci, others):
     out.append((K.spki(ci.oid, bytes([6 + (1 - (y & 1))]) + K.enc_point(ci, x, y, "raw")), "hybrid-mismatch-in-spki"))
     out.append((K.spki(ci.oid, b"\x04" + K.enc_point(ci, x, y, "raw")[:-1]), "short-point-in-spki"))
     good = K.spki(ci.oid, K.enc_point(ci, x, y, "uncompressed"))
-    for _ in range(6 if ctx.quick else 60):
+    for _ in range(6 if ctx.quick else 400):
         m, kind = K.mutate(rng, good)
         out.append((m, "mut:" + kind))
     return out
